@@ -28,7 +28,7 @@ Record variant := mk_variant {
   v_doc_lines : bool;   (* Deb822::wrap_and_sort keeps comment lines as EMPTY_LINE nodes             (C07-document-comment-lines) *)
   v_fmt_lines : bool;   (* the formatter's output is lexed line by line                              (C07-formatter-lines) *)
   v_hash : bool;        (* rebuild_value keeps a '#' first line / a comment on the line kind it had  (C07-hash-lines) *)
-  v_terminate : bool;   (* Deb822::wrap_and_sort terminates the last line of every paragraph         (C07-terminate-paragraphs) *)
+  v_terminate : bool;   (* Deb822::wrap_and_sort terminates the last line of every paragraph and of the result (C07-terminate-paragraphs) *)
   v_typo : bool         (* format_field: Build-Conflicts-Arch                                        (C07-build-conflicts-arch) *)
 }.
 Definition fixed : variant := mk_variant true true true true true true.
@@ -298,7 +298,8 @@ Definition doc_ws (psort : option (tree -> tree -> comparison)) (pfun : option (
   let ps := sort_opt (option_map on_snd psort) ps in
   bind (dws_emit pfun true ps) (fun body =>
   bind (res_map emit_current trailing) (fun tr =>
-  Ok (Node ROOT (body ++ tr))))).
+  let r := Node ROOT (body ++ tr) in
+  Ok (if v_terminate V then ensure_nl r else r)))).
 
 (* ---------------------------------------------------------------- debian-control wrappers *)
 (* format_field; [rel v] stands for value.parse::<Relations>().unwrap().wrap_and_sort().to_string()
